@@ -1,6 +1,8 @@
 package main
 
 import (
+	"sort"
+	"regexp"
 	"go/token"
 	"go/types"
 	"strings"
@@ -506,5 +508,103 @@ func checkC15(c *Check) {
 			}
 		}
 		c.Ob("R4", "chain events reach the bus synchronously, in the order received", pe.Pos(), okSeq && npub >= 1, why)
+	}
+	c.chainEventQueries("R4")
+	c.orderMonitorSubscription("R2")
+}
+
+// chainEventQueries (R4): the tendermint event kinds the publisher subscribes to are exactly the kinds its dispatch
+// loop knows how to unpack: a query for kind K (tm event type string) is served by a case for EventData<K>, and every
+// such case has its query. A kind subscribed to but not unpacked is taken off the subscription and dropped.
+func (c *Check) chainEventQueries(rule string) {
+	l := c.L
+	kinds := map[string]bool{}
+	for _, fn := range l.pkgFuncs("events") {
+		for _, call := range callsInOwn(fn) {
+			if calleeFull(call) != "fmt.Sprintf" {
+				continue
+			}
+			a := call.Common().Args
+			if f, ok := strConst(a[0]); !ok || f != "%s='%s'" {
+				continue
+			}
+			s := Sym(a[1])
+			if m := regexp.MustCompile(`^\["tm\.event", "([A-Za-z]+)"\]$`).FindStringSubmatch(s); m != nil {
+				kinds[m[1]] = true
+			} else {
+				c.Info(rule, "chain event query in "+fnName(fn)+" not of the form tm.event='<kind>', not decided", call.Pos(), short(s))
+			}
+		}
+	}
+	cases := map[string]bool{}
+	pe := l.Func("events", "", "publishEvents")
+	if pe != nil {
+		c.Analysed(fnName(pe))
+		for _, g := range fnAndClosuresDeep(pe) {
+			eachInstr(g, func(i ssa.Instruction) {
+				if ta, ok := i.(*ssa.TypeAssert); ok {
+					n := ta.AssertedType.String()
+					if k := strings.LastIndex(n, ".EventData"); k >= 0 && strings.Contains(n, "tendermint/types") {
+						cases[n[k+len(".EventData"):]] = true
+					}
+				}
+			})
+		}
+	}
+	if len(kinds) == 0 || len(cases) == 0 {
+		c.Info(rule, "chain event queries / dispatch cases not found, agreement not decided", token.NoPos, "")
+		return
+	}
+	var ks []string
+	for k := range kinds {
+		ks = append(ks, k)
+	}
+	sort.Strings(ks)
+	for _, k := range ks {
+		c.Ob(rule, "chain events of kind "+k+" that are subscribed to are unpacked by the publisher", pe.Pos(), cases[k], "the publisher subscribes to tm.event='"+k+"' but has no case for EventData"+k+": those results are received and dropped, their akash events never reach the bus")
+	}
+	var cs []string
+	for k := range cases {
+		cs = append(cs, k)
+	}
+	sort.Strings(cs)
+	for _, k := range cs {
+		c.Ob(rule, "the publisher's case for EventData"+k+" has a subscription feeding it", pe.Pos(), kinds[k], "no query subscribes to tm.event='"+k+"': the events this case would publish (block-level results) never arrive")
+	}
+}
+
+// orderMonitorSubscription: the bid engine creates an order monitor while it is handling the order-created event; the
+// monitor's subscription is a clone of the service's (it starts with what the service has not read yet), not a fresh
+// subscription (which would miss an order-closed / lease event published in between). Shared by C15 and C13.
+func (c *Check) orderMonitorSubscription(rule string) {
+	l := c.L
+	fn := l.Func("provider/bidengine", "", "newOrderInternal")
+	if fn == nil {
+		c.Info(rule, "bid engine order constructor not found, subscription origin not decided", token.NoPos, "")
+		return
+	}
+	c.Analysed(fnName(fn))
+	n := 0
+	for _, g := range fnAndClosuresDeep(fn) {
+		eachInstr(g, func(i ssa.Instruction) {
+			st, ok := i.(*ssa.Store)
+			if !ok {
+				return
+			}
+			fa, ok := st.Addr.(*ssa.FieldAddr)
+			if !ok {
+				return
+			}
+			tn, f := structFieldOf(fa)
+			if !strings.HasSuffix(tn, "bidengine.order") || f != "sub" {
+				return
+			}
+			n++
+			s := Sym(st.Val)
+			c.Ob(rule, "an order monitor's subscription is a clone of the bid engine's own subscription", st.Pos(), strings.Contains(s, "Subscriber.Clone(") && strings.Contains(s, ".sub"), "the monitor subscribes with "+short(s)+": events for the order published before this point (order closed, lease created) are never seen by it")
+		})
+	}
+	if n == 0 {
+		c.Info(rule, "order monitor subscription field not found, not decided", fn.Pos(), "")
 	}
 }
